@@ -44,6 +44,19 @@ CRYSTALS = {
     # triclinic P1, interleaved species
     "tric": dict(lattice=[[4.0, 0.25, 0.5], [0.125, 4.5, 0.375], [0.25, -0.5, 5.0]], symbols=["Si", "O", "Si"],
                  pos=[[0, 0, 0], [.25, .5, .25], [.5, .25, .75]], smat=[[2, 0, 0], [0, 1, 0], [0, 0, 1]], pmat=None),
+    # the same with a supercell matrix for which the classic and the SNF construction order the atoms differently
+    "tetsnf": dict(lattice=[[3.0, 0, 0], [0, 3.0, 0], [0, 0, 3.75]], symbols=["Ti", "O"],
+                   pos=[[0, 0, 0], [.5, .5, .25]], smat=[[1, 0, 1], [0, 2, 0], [-1, 0, 1]], pmat=None, snfS=True),
+    # a cell whose c/2 translation holds only at a loose tolerance (primitive matrix 'auto' found with symprec=1e-2)
+    "tetloose": dict(lattice=[[3.0, 0, 0], [0, 3.0, 0], [0, 0, 7.5]], symbols=["Ti", "O", "Ti", "O"],
+                     pos=[[0, 0, 0], [.5, .5, .125], [0, 0, .5002], [.5, .5, .625]], smat=[[1, 0, 0], [0, 1, 0], [0, 0, 1]],
+                     pmat="auto", fragile=True),
+    # space group P4, general positions: anisotropic, pairwise different Born tensors on one orbit (BornCodec.tla)
+    "p4": dict(lattice=[[4.0, 0, 0], [0, 4.0, 0], [0, 0, 5.0]],
+               symbols=["Ti", "Ti", "Ti", "Ti", "O", "O", "O", "O"],
+               pos=[[.125, .25, .125], [.75, .125, .125], [.875, .75, .125], [.25, .875, .125],
+                    [.375, .125, .5625], [.875, .375, .5625], [.625, .875, .5625], [.125, .625, .5625]],
+               smat=[[1, 0, 0], [0, 1, 0], [0, 0, 1]], pmat=None),
     # two-atom tetragonal magnet
     "fe2": dict(lattice=[[2.875, 0, 0], [0, 2.875, 0], [0, 0, 3.0]], symbols=["Fe", "Fe"],
                 pos=[[0, 0, 0], [.5, .5, .5]], smat=[[1, 0, 0], [0, 1, 0], [0, 0, 2]], pmat=None),
@@ -93,11 +106,30 @@ def make_unitcell(cell):
                         scaled_positions=np.array(cr["pos"], dtype=float), masses=masses, magnetic_moments=mag)
 
 
-def new_phonopy(cfgobj, quiet=True):
+OWN_FACTOR = 20.0
+SYMPREC = {"default": 1e-5, "loose": 1e-2, "unset": 1e-5}
+NP_OBJ0 = dict(snf=False, tol="default", issym=True, dense=True, factor="default")
+
+
+def cell_attrs(name):
+    """abstract attributes of a crystal of the table (fields of obj.cell in SaveLoad.tla)"""
+    cr = CRYSTALS[name]
+    return dict(snfS=bool(cr.get("snfS")), fragile=bool(cr.get("fragile")),
+                sid=bool(np.array_equal(np.array(cr["smat"]), np.eye(3, dtype=int))))
+
+
+def new_phonopy(cfgobj, quiet=True, **override):
+    """Phonopy object of the abstract object: constructor options from obj.np (override: the options load() is given)."""
     cr = CRYSTALS[cfgobj["cell"]["name"]]
     calc = None if cfgobj["calc"] == "none" else cfgobj["calc"]
-    ph = Phonopy(make_unitcell(cfgobj["cell"]), supercell_matrix=cr["smat"], primitive_matrix=cr["pmat"],
-                 factor=DEFAULT_FACTOR[cfgobj["calc"]], calculator=calc)
+    opt = dict(NP_OBJ0)
+    opt.update(cfgobj.get("np") or {})
+    opt.update(override)
+    factor = OWN_FACTOR if opt["factor"] == "own" else DEFAULT_FACTOR[cfgobj["calc"]]
+    with contextlib.redirect_stdout(io.StringIO()):
+        ph = Phonopy(make_unitcell(cfgobj["cell"]), supercell_matrix=cr["smat"], primitive_matrix=cr["pmat"],
+                     factor=factor, calculator=calc, use_SNF_supercell=bool(opt["snf"]), symprec=SYMPREC[opt["tol"]],
+                     is_symmetry=bool(opt["issym"]), store_dense_svecs=bool(opt["dense"]))
     return ph
 
 
@@ -115,6 +147,33 @@ def iso_nac(ph, z, eps, rng=None):
         else:
             born[i] = np.eye(3) * (z if s == first else -z * npos / nneg)
     return dict(born=born, dielectric=np.eye(3) * eps)
+
+
+RZ = np.array([[0, -1, 0], [1, 0, 0], [0, 0, 1]], dtype=float)
+
+
+def make_nac(ph, name, k):
+    """NAC parameters allowed by the space group of the crystal, anisotropic wherever the sites allow it,
+    neutral; k = 1, 2, ... gives different numbers for the different sources.  All entries are multiples of 1/64."""
+    syms = [s.rstrip("0123456789") for s in ph.primitive.symbols]
+    n = len(syms)
+    u = 1.0 / 64
+    if name in ("tetab", "tetsnf", "tetloose") and n == 2:
+        b = np.diag([70 + 8 * k, 70 + 8 * k, 131 + 4 * k]) * u
+        return dict(born=np.array([b, -b]), dielectric=np.diag([150 + 16 * k, 150 + 16 * k, 233 + 8 * k]) * u)
+    if name == "tric" and n == 3:
+        t1 = np.array([[90, 35, 3], [-59, 49, -118], [-9, 24, 83]]) * u * (1 + k / 8)
+        t3 = np.array([[-17, 5, 66], [12, 77, -8], [41, -30, 20]]) * u * (1 + k / 8)
+        return dict(born=np.array([t1, -(t1 + t3), t3]),
+                    dielectric=np.array([[200, 12, -7], [12, 260, 20], [-7, 20, 300]]) * u * (1 + k / 8))
+    if name == "p4" and n == 8:
+        T = np.array([[90, 35, 3], [-59, -49, -118], [-109, -124, -83]]) * u + np.eye(3) * k / 8
+        born = []
+        for i, s in enumerate(syms):
+            R = np.linalg.matrix_power(RZ, i % 4)
+            born.append((1 if s == "Ti" else -1) * (R @ T @ R.T))
+        return dict(born=np.array(born), dielectric=np.diag([150 + 16 * k, 150 + 16 * k, 233 + 8 * k]) * u)
+    return iso_nac(ph, 1.0 + k / 8, 2.0 + k / 2)
 
 
 def make_dataset(ph, ds, rng, fscale=0.125):
@@ -262,6 +321,7 @@ class World:
         o = cfg["obj"]
         ph = new_phonopy(o)
         self.ph = ph
+        self.obj_order = order_of(ph.supercell.scaled_positions, constructions(ph.unitcell, ph.supercell_matrix))
         n = len(ph.supercell)
         self.src_ds = {}
         self.src_fc = {}
@@ -288,7 +348,7 @@ class World:
             ph.force_constants = fc
             self.src_fc["yaml"] = ph.force_constants.copy()
         if o["nac"]["kind"] != "none":
-            nac = iso_nac(ph, 1.25, 2.5)
+            nac = make_nac(ph, o["cell"]["name"], 1)
             if o["nac"]["kind"] in ("gonze", "wang"):
                 nac["method"] = o["nac"]["kind"]
             if o["nac"]["factor"]:
@@ -341,9 +401,9 @@ class World:
                 kw["force_constants_filename"] = "my_fc.hdf5"
             self.src_fc["fcfile"] = fc
 
-        def write_born(name, z, eps):
-            nac = iso_nac(ph, z, eps)
-            # BORN holds the symmetry-independent atoms of the primitive cell; every site here is isotropic
+        def write_born(name, k):
+            nac = make_nac(ph, cfg["obj"]["cell"]["name"], k)
+            # BORN holds the symmetry-independent atoms of the primitive cell (tensors of make_nac are equivariant)
             from phonopy.structure.symmetry import Symmetry
             indep = Symmetry(ph.primitive).get_independent_atoms()
             with open(name, "w") as f:
@@ -354,20 +414,69 @@ class World:
             return nac
 
         if env["BORN"]:
-            self.src_nac["BORN"] = write_born("BORN", 2.125, 3.5)
+            self.src_nac["BORN"] = write_born("BORN", 2)
         if args["bornFile"]:
-            self.src_nac["bornfile"] = write_born("my_born", 3.375, 4.5)
+            self.src_nac["bornfile"] = write_born("my_born", 3)
             kw["born_filename"] = "my_born"
         if args["nacArg"]:
-            self.src_nac["arg"] = iso_nac(ph, 0.625, 5.5)
+            self.src_nac["arg"] = make_nac(ph, cfg["obj"]["cell"]["name"], 4)
             kw["nac_params"] = {k: np.array(v) for k, v in self.src_nac["arg"].items()}
         if args["calcArg"] != "none":
             kw["calculator"] = args["calcArg"]
-        if args.get("cellArg", "none") == "unitcell":
-            # the crystal structure by argument: load() then does not parse the saved file at all
-            kw["unitcell"] = ph.unitcell.copy()
+        # crystal structure by argument: each source is a differently scaled copy of the object's cell
+        cells = args.get("cells") or {}
+        self.src_cell = {"yaml": (ph.unitcell.cell.copy(), "unit")}
+
+        def scaled(c, f):
+            c2 = c.copy()
+            c2.cell = c.cell * f
+            return c2
+
+        def write_structure(fname, c, fmt):
+            if fmt == "vasp":
+                from phonopy.interface.vasp import write_vasp
+                write_vasp(fname, c)
+            else:  # a complete pw.x input (the writer of phonopy gives only the cards)
+                from phonopy.interface.qe import get_pwscf_structure
+                species = []
+                for x in c.symbols:
+                    if x not in species:
+                        species.append(x)
+                with open(fname, "w") as f:
+                    f.write("&system\n    ibrav = 0, nat = %d, ntyp = %d\n/\n" % (len(c), len(species)))
+                    f.write(get_pwscf_structure(c, pp_filenames={x: x + ".upf" for x in species}))
+        if cells.get("unitcell"):
+            c = scaled(ph.unitcell, 1 + 1 / 64)
+            kw["unitcell"] = c
+            self.src_cell["unitcell"] = (c.cell.copy(), "unit")
+        if cells.get("supercell"):
+            c = scaled(ph.supercell, 1 + 2 / 64)
+            kw["supercell"] = PhonopyAtoms(symbols=c.symbols, cell=c.cell, scaled_positions=c.scaled_positions, masses=c.masses,
+                                           magnetic_moments=c.magnetic_moments)
+            self.src_cell["supercell"] = (c.cell.copy(), "super")
+        if cells.get("ucfile"):
+            c = scaled(ph.unitcell, 1 + 3 / 64)
+            write_structure("my_unitcell", c, args["fmt"])
+            kw["unitcell_filename"] = "my_unitcell"
+            self.src_cell["ucfile"] = (c.cell.copy(), "unit")
+        if cells.get("scfile"):
+            c = scaled(ph.supercell, 1 + 4 / 64)
+            write_structure("my_supercell", c, args["fmt"])
+            kw["supercell_filename"] = "my_supercell"
+            self.src_cell["scfile"] = (c.cell.copy(), "super")
+        if args.get("smatArg"):
             kw["supercell_matrix"] = np.array(ph.supercell_matrix)
+        if args.get("pmatArg"):
             kw["primitive_matrix"] = np.eye(3) if ph.primitive_matrix is None else np.array(ph.primitive_matrix)
+        # the options save() does not record, as arguments of load()
+        anp = args.get("np") or {}
+        kw["use_SNF_supercell"] = bool(anp.get("snf", False))
+        if anp.get("tol", "unset") != "unset":
+            kw["symprec"] = SYMPREC[anp["tol"]]
+        kw["is_symmetry"] = bool(anp.get("issym", True))
+        kw["store_dense_svecs"] = bool(anp.get("dense", True))
+        if anp.get("factor", "unset") == "own":
+            kw["factor"] = OWN_FACTOR
         kw["is_compact_fc"] = bool(args["isCompact"])
         kw["produce_fc"] = bool(args["produceFc"])
         kw["is_nac"] = bool(args["isNac"])
@@ -455,8 +564,8 @@ def nearest_source(value, cands, close=1e-5):
 # ----------------------------------------------------------------------------
 # reference objects (the same public functions applied to the ORIGINAL data: the property is
 # relative - load(save(x)) against x)
-def produced_fc(cfgobj, dset, compact, symmetrize=True):
-    ph = new_phonopy(cfgobj)
+def produced_fc(cfgobj, dset, compact, symmetrize=True, **override):
+    ph = new_phonopy(cfgobj, **override)
     ph.dataset = dset
     with contextlib.redirect_stdout(io.StringIO()):
         ph.produce_force_constants(calculate_full_force_constants=not compact)
@@ -511,6 +620,53 @@ def cell_err(a, b):
     return out
 
 
+def constructions(unitcell, smat):
+    """the supercell of the two constructions (classic, SNF), as arrays of scaled positions"""
+    from phonopy.structure.cells import get_supercell
+    out = {}
+    for name, old in (("classic", True), ("snf", False)):
+        with contextlib.redirect_stdout(io.StringIO()):
+            out[name] = get_supercell(unitcell, smat, is_old_style=old).scaled_positions
+    return out
+
+
+def order_of(supercell_positions, cons):
+    same = {k: (v.shape == supercell_positions.shape and np.abs(v - supercell_positions).max() < 1e-8) for k, v in cons.items()}
+    if same["classic"] and same["snf"]:
+        return "same"
+    if same["classic"]:
+        return "classic"
+    if same["snf"]:
+        return "snf"
+    return "unknown"
+
+
+def project_cell_np(world, ph2):
+    """which cell was taken (by its lattice), the supercell matrix class, the effective constructor options"""
+    ph = world.ph
+    src = "unknown"
+    lat = ph2.unitcell.cell
+    for name, (L, kind) in getattr(world, "src_cell", {"yaml": (ph.unitcell.cell, "unit")}).items():
+        if L.shape == lat.shape and np.abs(L - lat).max() < 1e-6:
+            src = name
+    sm = np.array(ph2.supercell_matrix)
+    if np.array_equal(sm, np.eye(3, dtype=int)):
+        smat = "identity"
+    elif np.array_equal(sm, np.array(ph.supercell_matrix)):
+        smat = "obj"
+    else:
+        smat = "other"
+    cons = constructions(ph2.unitcell, ph2.supercell_matrix)
+    differs = bool(np.abs(cons["classic"] - cons["snf"]).max() > 1e-8)
+    order = order_of(ph2.supercell.scaled_positions, cons)
+    tol = ph2.symmetry.tolerance
+    tolc = "default" if abs(tol - 1e-5) < 1e-12 else ("loose" if abs(tol - 1e-2) < 1e-12 else "other")
+    f = ph2.unit_conversion_factor
+    freq = "own" if abs(f - OWN_FACTOR) < 1e-12 else "default"
+    issym = bool(getattr(ph2, "_is_symmetry", True))
+    return dict(src=src, smat=smat), dict(order=order, tol=tolc, issym=issym, freq=freq), differs
+
+
 def project(world, ph2, err, wr=None):
     """Outcome of save+load -> abstract `loaded` record + quality classes.
     wr: what the saved text contains; the saved file is a candidate source of a field only if it holds it."""
@@ -523,8 +679,18 @@ def project(world, ph2, err, wr=None):
         if not (wr["nac"]["born"] and wr["nac"]["eps"]):
             world.src_nac.pop("yaml", None)
     if ph2 is None:
-        return dict(status="raised", err=type(err).__name__), None
-    obs = dict(status="ok")
+        name, msg = type(err).__name__, str(err)
+        if name == "ForceCalculatorRequiredError":
+            why = "solver"
+        elif "TrimmedCell" in msg or "primitive cell is failed" in msg or "PRIMITIVE_AXIS" in msg:
+            why = "symmetry"
+        elif any((cfg["args"].get("cells") or {}).get(k) for k in ("ucfile", "scfile")):
+            why = "structure"
+        else:
+            why = "other"
+        return dict(status="raised", err=name, why=why), None
+    obs = dict(status="ok", why="none")
+    obs["cell"], obs["np"], snf_differs = project_cell_np(world, ph2)
     calc = ph2.calculator
     obs["calc"] = "none" if calc is None else str(calc)
     f = ph2.unit_conversion_factor
@@ -532,22 +698,30 @@ def project(world, ph2, err, wr=None):
     for k, v in (("std", DEFAULT_FACTOR["none"]), ("qe", DEFAULT_FACTOR["qe"])):
         if abs(f - v) <= 1e-12 * v:
             obs["units"] = k
+    if obs["np"]["freq"] == "own":
+        obs["units"] = "qe" if obs["calc"] == "qe" else "std"  # an own factor handed to load(): not the calculator's
     q = {}
     # cells and matrices
     worst = dict(sym=True, lat=0, pos=0, mass=0, mag=0)
-    for a, b in ((ph.unitcell, ph2.unitcell), (ph.supercell, ph2.supercell), (ph.primitive, ph2.primitive)):
+    pairs = ((ph.unitcell, ph2.unitcell), (ph.supercell, ph2.supercell), (ph.primitive, ph2.primitive))
+    if obs["cell"]["src"] != "yaml":
+        pairs = ()  # structure by argument: which cell was taken is decided through cell.src (lattices differ by construction)
+    elif obs["np"]["order"] not in ("same", "unknown") and snf_differs and obs["np"]["order"] != world.obj_order:
+        pairs = ((ph.unitcell, ph2.unitcell), (ph.primitive, ph2.primitive))  # supercell in the other order: ReqAtomOrder
+    for a, b in pairs:
         ce = cell_err(a, b)
         worst["sym"] = worst["sym"] and ce["sym"]
         for k in ("lat", "pos", "mass", "mag"):
             worst[k] = max(worst[k], ce[k])
     q.update(symbols=worst["sym"], lattice=worst["lat"], positions=worst["pos"], masses=worst["mass"],
              magmoms=worst["mag"])
-    q["smat"] = bool(np.array_equal(np.array(ph.supercell_matrix), np.array(ph2.supercell_matrix)))
+    q["smat"] = bool(np.array_equal(np.array(ph.supercell_matrix), np.array(ph2.supercell_matrix))) \
+        or obs["cell"]["src"] != "yaml"
     pm1 = np.eye(3) if ph.primitive_matrix is None else np.array(ph.primitive_matrix)  # None means the unit matrix
     pm2 = np.eye(3) if ph2.primitive_matrix is None else np.array(ph2.primitive_matrix)
-    q["pmat"] = err_class(pm1, pm2, 15)
-    q["maps"] = bool(np.array_equal(ph.primitive.p2s_map, ph2.primitive.p2s_map)
-                     and np.array_equal(ph.supercell.s2u_map, ph2.supercell.s2u_map))
+    q["pmat"] = err_class(pm1, pm2, 15) if obs["cell"]["src"] == "yaml" else 0
+    q["maps"] = bool(len(pairs) < 3 or (np.array_equal(ph.primitive.p2s_map, ph2.primitive.p2s_map)
+                                        and np.array_equal(ph.supercell.s2u_map, ph2.supercell.s2u_map)))
     # dataset
     k2 = ds_kind(ph2.dataset)
     d2, f2, e2 = disp_forces(ph2.dataset)
@@ -603,8 +777,9 @@ def project(world, ph2, err, wr=None):
         if dsobs["src"] not in ("none", "unknown") and dsobs["type"] == 1 and dsobs["forces"]:
             for sym in (True, False):
                 try:
-                    cands["produced" + ("" if sym else "_raw")] = produced_fc(cfg["obj"], world.src_ds[dsobs["src"]],
-                                                                          fcobs["layout"] == "compact", symmetrize=sym)
+                    cands["produced" + ("" if sym else "_raw")] = produced_fc(
+                        cfg["obj"], world.src_ds[dsobs["src"]], fcobs["layout"] == "compact", symmetrize=sym,
+                        issym=obs["np"]["issym"], tol=obs["np"]["tol"] if obs["np"]["tol"] in SYMPREC else "default")
                 except Exception:
                     pass
         src, dist = nearest_source(fc2, cands, close=1e-6)
@@ -666,6 +841,10 @@ def written(text):
     hdr = y.get("phonopy") or {}
     if "calculator" in hdr:
         w["calc"] = str(hdr["calculator"])
+    t = hdr.get("symmetry_tolerance")
+    w["tol"] = "default" if t is None or abs(float(t) - 1e-5) < 1e-9 else ("loose" if abs(float(t) - 1e-2) < 1e-6 else "other")
+    ff = hdr.get("frequency_unit_conversion_factor")
+    w["ffac"] = "own" if ff is not None and abs(float(ff) - OWN_FACTOR) < 1e-5 else "default"
     if "displacements" in y and y["displacements"] and all(isinstance(d, dict) for d in y["displacements"]):
         w["ds"] = dict(type=1, forces=all("forces" in d for d in y["displacements"]),
                        energies=all("supercell_energy" in d for d in y["displacements"]))
